@@ -86,7 +86,7 @@ func verifHelperMain(args []string) int {
 		}
 		log.fh = fh
 	}
-	if len(args) > 3 && args[3] != "-" {
+	if len(args) > 3 && args[3] != "-" && role != "scriptclient" {
 		if conn, err := net.Dial("unix", args[3]); err == nil {
 			log.seq, log.rd = conn, bufio.NewReader(conn)
 		}
@@ -98,6 +98,10 @@ func verifHelperMain(args []string) int {
 		return verifHelperServer(fault, log)
 	case "proc":
 		return verifHelperProc(fault)
+	case "scriptclient":
+		if len(args) > 3 {
+			return verifHelperScriptClient(args[3])
+		}
 	}
 	return 64
 }
@@ -325,4 +329,88 @@ func verifHelperProc(kind string) int {
 		return 0
 	}
 	return 64
+}
+
+// verifHelperScriptClient: a client process whose every operation on its real stdin / stdout is
+// commanded over a control socket: {"op":"R"} read the next chunk (4-byte prefix, then the body),
+// {"op":"W","kind":...,"name":...} write an answer / garbage / oversize prefix / truncated message,
+// {"op":"X","code":n} exit.  SIGTERM is reported as {"sig":"term"}; the process then waits to be
+// told to exit, so that its exit can be logged before it happens.
+func verifHelperScriptClient(sock string) int {
+	conn, err := net.Dial("unix", sock)
+	if err != nil {
+		return 66
+	}
+	enc := json.NewEncoder(conn)
+	var encMu sync.Mutex
+	send := func(v any) {
+		encMu.Lock()
+		defer encMu.Unlock()
+		_ = enc.Encode(v)
+	}
+	sigs := make(chan os.Signal, 1)
+	signal.Notify(sigs, syscall.SIGTERM, syscall.SIGINT)
+	go func() {
+		<-sigs
+		send(map[string]string{"sig": "term"})
+	}()
+	type ctl struct {
+		Op   string `json:"op"`
+		Kind string `json:"kind"`
+		Name string `json:"name"`
+		Code int    `json:"code"`
+	}
+	cmds := make(chan ctl)
+	go func() {
+		dec := json.NewDecoder(conn)
+		for {
+			var c ctl
+			if dec.Decode(&c) != nil {
+				os.Exit(70) // harness went away
+			}
+			if c.Op == "X" {
+				os.Exit(c.Code)
+			}
+			cmds <- c
+		}
+	}()
+	readPh, bodyLen := 1, 0
+	for c := range cmds {
+		switch c.Op {
+		case "R":
+			var err error
+			if readPh == 1 {
+				var p [4]byte
+				if _, err = io.ReadFull(os.Stdin, p[:]); err == nil {
+					bodyLen = int(p[0])<<24 | int(p[1])<<16 | int(p[2])<<8 | int(p[3])
+					readPh = 2
+				}
+			} else {
+				if _, err = io.ReadFull(os.Stdin, make([]byte, bodyLen)); err == nil {
+					readPh = 1
+				}
+			}
+			if err != nil {
+				send(map[string]string{"ret": "eof"})
+			} else {
+				send(map[string]string{"ret": "ok"})
+			}
+		case "W":
+			switch c.Kind {
+			case "resp":
+				_ = internal.WriteDelimitedMessage(os.Stdout, &conformancev1.ClientCompatResponse{
+					TestName: c.Name,
+					Result:   &conformancev1.ClientCompatResponse_Response{Response: &conformancev1.ClientResponseResult{}},
+				})
+			case "garbage":
+				_, _ = os.Stdout.Write([]byte{0, 0, 0, 3, 0xff, 0xff, 0xff})
+			case "oversize":
+				_, _ = os.Stdout.Write([]byte{0x01, 0x00, 0x00, 0x01}) // 16 MiB + 1
+			case "trunc":
+				_, _ = os.Stdout.Write([]byte{0, 0, 0, 10, 0x0a, 0x01, 'x'})
+			}
+			send(map[string]string{"ret": "ok"})
+		}
+	}
+	return 0
 }
